@@ -40,6 +40,7 @@ def gen_family(rng, n_roots=(1, 3), n_cond=(2, 8), n_rdm=(1, 4)):
     used = set()
     measure = rng.pick(['euclidean', None, 'corr'])
     rtyp = rng.pick(['int', 'str', 'float'])
+    fneg = rng.chance(0.2)       # some negative dissimilarities (family-wide)
     fdtype = rng.pick(['float64', 'float64', 'float64', 'float64', 'int64', 'float32'])     # dtype of the stacks handed to the constructor
     styp = rng.pick(['str', 'str', 'int'])     # object-level descriptor values incl. falsy ones ('' / 0), one type per family
     sess_vals = ['s1', 's2', '', 's7'] if styp == 'str' else [0, 1, 2, 0]
@@ -57,6 +58,8 @@ def gen_family(rng, n_roots=(1, 3), n_cond=(2, 8), n_rdm=(1, 4)):
                 'pat_desc': pat_desc, 'nan_cells': [], 'order': rng.pick(['F', 'S', 'Q']) if rng.chance(0.3) else 'C'}
         if fdtype != 'float64':
             spec['dtype'] = fdtype
+        if fneg:
+            spec['neg'] = True
         if rng.chance(0.25) and nc >= 4 and fdtype != 'int64':
             i, j = sorted(rng.sample(range(nc), 2))
             spec['nan_cells'].append([rng.randrange(nr), i, j])
@@ -524,7 +527,11 @@ class RdmsOps:
                     r.shuffle(perm)
                     part.reorder(perm)
                 if src.obj.n_rdm > 1:
-                    part = part[k % src.obj.n_rdm]
+                    nparts = 2 + o['u'] % 2
+                    if o['a'][1] % 2 and src.obj.n_rdm >= nparts:
+                        part = part[list(range(src.obj.n_rdm))[k::nparts]]       # several RDMs per partial (disjoint between partials)
+                    else:
+                        part = part[k % src.obj.n_rdm]
             except Exception as e:
                 return self._raise('from_partials:prepare', e)
             if o['flag2']:
